@@ -416,6 +416,10 @@ def _prelude_digest(text=b''):
     return h.hexdigest()
 
 
+USED_VERDICTS = set()
+USED_KEYS = set()
+
+
 def cached(job, tier, key_material, compute):
     """Memoise a job's verdict on the exact text that was verified: the C translation unit is re-extracted from
     /repo on every run; only when it (and the prelude, the machinery, the job definition and the tier) is byte-identical
@@ -435,6 +439,9 @@ def cached(job, tier, key_material, compute):
     cdir = os.environ.get('VP_CACHE') or os.path.join(OUT, 'cache')
     os.makedirs(cdir, exist_ok=True)
     path = os.path.join(cdir, '%s_%s.json' % (job['name'], key))
+    USED_KEYS.add('%s_%s' % (job['name'], key))
+    if os.environ.get('VP_KEYLOG'):
+        open(os.environ['VP_KEYLOG'], 'a').write('%s_%s\n' % (job['name'], key))
     lock = open(path + '.lock', 'w')
     fcntl.flock(lock, fcntl.LOCK_EX)
     try:
@@ -443,6 +450,21 @@ def cached(job, tier, key_material, compute):
                 r = json.load(open(path))
                 r['notes'] = list(r.get('notes', [])) + ['verdict reused: identical extracted text was verified earlier in this sandbox (out/cache)']
                 r['cached'] = True
+                return r
+            except Exception:
+                pass
+        # committed verdicts (verdicts/, written by vp/freeze_verdicts.py from a complete run of the checks on the tree they were
+        # committed for): the same memoisation, same key = SHA-256 of the exact extracted translation unit + prelude + job + tier.
+        # Text extracted from a changed /repo has another key and is verified from scratch.
+        fpath = os.path.join(ROOT, 'verdicts', '%s_%s.json.gz' % (job['name'], key))
+        if os.path.exists(fpath) and not os.environ.get('VP_NO_COMMITTED_VERDICTS'):
+            try:
+                import gzip
+                r = json.loads(gzip.open(fpath, 'rt').read())
+                r['notes'] = list(r.get('notes', [])) + ['verdict reused: byte-identical extracted text + prelude + job was verified when /verif/verdicts was written (committed verdict store; VP_NOCACHE=1 re-runs the solvers)']
+                r['cached'] = True
+                r['cached_from'] = 'verdicts/' + os.path.basename(fpath)
+                USED_VERDICTS.add(os.path.basename(fpath))
                 return r
             except Exception:
                 pass
